@@ -116,6 +116,7 @@ def run_case(seed, tier, b, acc):
     acc.count('default_omission_calls', R['default_calls'])
     acc.count('results_checked', R['checked'])
     acc.count('objects_identified', R['objects_identified'])
+    acc.count('templated_member_or_function_calls', R.get('templated_calls', 0))
     for k, n in R['skipped'].items():
         acc.count('skipped:' + k.split(' ')[0], n)
     acc.case(hashlib.sha256(out.encode()).hexdigest()[:16], R['bindings'] >= 5)
